@@ -66,11 +66,16 @@ def gen_cases(tier, seed):
 
 
 def _chunks(sc):
+    """every chunk of every chunk grid the scale announces"""
     X, Y, Z = sc["size"]
-    cs = sc["chunk_sizes"][0]
-    for x, y, z in itertools.product(range(0, X, cs[0]), range(0, Y, cs[1]),
-                                     range(0, Z, cs[2])):
-        yield (x, min(x + cs[0], X), y, min(y + cs[1], Y), z, min(z + cs[2], Z))
+    seen = set()
+    for cs in sc["chunk_sizes"]:
+        for x, y, z in itertools.product(range(0, X, cs[0]), range(0, Y, cs[1]),
+                                         range(0, Z, cs[2])):
+            c = (x, min(x + cs[0], X), y, min(y + cs[1], Y), z, min(z + cs[2], Z))
+            if c not in seen:
+                seen.add(c)
+                yield c
 
 
 def _read_all(np, url):
@@ -103,6 +108,7 @@ def run_case(case):
         many = case.get("directed") == "many_shards"
         if many:
             src_sharded, dst_mode, dst_sharded = rnd.random() < 0.3, "info", True
+        sharded_any = src_sharded or dst_sharded or many
         cubic = src_sharded or dst_sharded or rnd.random() < 0.3
         sdt = rnd.choice(DTYPES)
         senc = "compressed_segmentation" if sdt in ("uint32", "uint64") and rnd.random() < 0.4 \
@@ -121,7 +127,15 @@ def run_case(case):
                 cs = [c, c, c]
             else:
                 cs = [rnd.choice([2, 3, 4, 8, 16]) for _ in range(3)]
-            sc = {"key": f"s{i}", "size": size, "chunk_sizes": [cs], "resolution": [2 ** i] * 3,
+            css = [cs]
+            if not sharded_any and rnd.random() < 0.3:
+                # a scale that offers a second chunk grid (same origin, other chunk size)
+                other = [c * 2 for c in cs] if rnd.random() < 0.5 else \
+                    [rnd.choice([2, 3, 4, 8]) for _ in range(3)]
+                if other != cs:
+                    css.append(other)
+                    obs["scales_with_two_chunk_grids"] = 1
+            sc = {"key": f"s{i}", "size": size, "chunk_sizes": css, "resolution": [2 ** i] * 3,
                   "voxel_offset": [0, 0, 0], "encoding": senc}
             if senc != "raw":
                 sc["compressed_segmentation_block_size"] = [rnd.choice([2, 4, 8])
@@ -315,6 +329,7 @@ def gates(obs, tier):
         "encoding_changes": obs.get("encoding_change", 0) > 10,
         "multi_scale": obs.get("scales", 0) > obs.get("conversions", 0),
         "destinations_with_more_than_64_shards": obs.get("many_shards_destinations", 0) > 0,
+        "scales_with_two_chunk_grids": obs.get("scales_with_two_chunk_grids", 0) > 5,
         "destination_scale_lists_reordered_or_partial": obs.get(
             "destination_scale_lists_reordered_or_partial", 0) > 5,
         "destinations_with_per_scale_sharding": obs.get(
